@@ -403,6 +403,27 @@ def reference(L, cw, fr, px, med, x, d):
                                   ((a - c) ** 2).sum(1)])
         vs = np.abs(V[tri]).max(axis=1) / np.maximum(np.abs(E[ok]), 1e-300)
         cond[ok] = emax / np.abs(dd) * vs
+        # a point on a common edge of two triangles (barycentric coordinate
+        # below 1e-12) is located by rounding: if one of the two is a
+        # sliver qhull may find neither (measured on HE-2D-FEM-22: exactly
+        # on the edge not found, 1e-14 to either side found). NaN-ness of
+        # such points is not compared: they count as "in the band".
+        lmin = np.minimum(np.minimum(l1, l2), l3)
+        idx = np.where(ok)[0]
+        dist[idx[lmin < 1e-12]] = 0.0
+    lost = (~ok) & fin & (dist > BAND)
+    if lost.any():
+        # inside the hull but not located: on such an edge?
+        SA, SB, SC = (P[T.simplices[:, 0]], P[T.simplices[:, 1]],
+                      P[T.simplices[:, 2]])
+        DD = cross2(SA, SB, SC)
+        for i in np.where(lost)[0]:
+            q = Q[i][None, :]
+            m = np.minimum(np.minimum(cross2(q, SB, SC) / DD,
+                                      cross2(SA, q, SC) / DD),
+                           cross2(SA, SB, q) / DD)
+            if ((m > -1e-12) & (m < 1e-12)).any():
+                dist[i] = 0.0
     visc = viscosities(med, cw, fr, n)
     E = E * (fr / L.fr) * (visc / L.visc) * (L.cw / cw) ** 3
     return E, dist, cond, (Q, s, T, P)
